@@ -778,6 +778,12 @@ impl<F: Read + Write + Seek> Package<F> {
                 );
             }
         }
+        // A tool that took a table out of the catalog tables only may have left
+        // its stream behind; a new table of that name starts out empty.
+        let stream_name = streamname::encode(&table_name, true);
+        if self.comp().exists(&stream_name) {
+            self.comp_mut().remove_stream(&stream_name)?;
+        }
         self.insert_rows(Insert::into(COLUMNS_TABLE_NAME).rows(columns_rows))?;
         self.insert_rows(
             Insert::into(TABLES_TABLE_NAME)
